@@ -46,8 +46,19 @@ def scenarios(tier):
 def run(tier, seed):
     t0 = time.time()
     d = vc.fresh_dir(PID)
-    binary = hc.build(d)
+    import os
+    binary = hc.build(os.path.join(d, "r1"))
     reps, m, viol = vc.rsched_scenarios(PID, "h_run", binary, scenarios(tier), d, workers=8)
+    # every node: remote events, remote anti-messages (also early ones) feed the commit log too
+    b2 = hc.build(os.path.join(d, "r2"), ranks=2)
+    sc2 = [hc.scen("r2x1_m0", T(2, [1, 2], [2, 1, 7], P=5, K=5, H=6), T=1, ck=1, p=1, d=1, j=4, deadline=900)]
+    if tier != "quick":
+        sc2 += [hc.scen("r2x1_t2", TRICKLE[2], T=1, ck=2, p=1, d=1, j=8, deadline=1500),
+                hc.scen("r2x2_t3", T(4, [1, 2, 1, 2], [2, 1, 7], P=5, K=100, H=8), T=2, ck=1, p=1, d=0, j=8, deadline=1500)]
+    reps2, m2, viol2 = vc.rsched_scenarios(PID, "h_run2", b2, sc2, d, workers=2)
+    reps += reps2
+    viol += viol2
+    m = vc.merge_rsched(reps)
     if not viol:
         for k in ("fossil_releases", "rollbacks", "anti_extracted_processed", "ended_by_time", "ended_by_stop", "committed_events"):
             if hc.counters_nz(m, k) == 0:
@@ -63,12 +74,14 @@ def run(tier, seed):
                            "timestamp, type, payload, and the state hash published by the last forward execution; nothing at or above the "
                            "GVT may be released; non-trivial = execution in which fossil collection released entries")
     vc.write_evidence(PID, tier, "model_checking", cov,
-                      ["call-granularity interleavings, <= 3 threads, one rank (two ranks: C02)",
+                      ["call-granularity interleavings, <= 3 threads, 1-2 ranks",
                        "entries still held at shutdown are committed iff their timestamp is below the largest GVT reported to any thread"],
                       time.time() - t0, n, seed)
     return 1 if n else 0
 
 
 def replay(path):
+    import os
     d = vc.fresh_dir(PID + "_replay")
-    return vc.rsched_replay(hc.build(d), path)
+    ranks = 2 if os.path.basename(path).startswith("r2") else 1
+    return vc.rsched_replay(hc.build(d, ranks=ranks), path)
